@@ -1,6 +1,164 @@
 import SlipVerif.Model.JsonLisp
+import SlipVerif.Lemmas.JsonPath
+/-
+  C18 — property theorems about the JSON model (Model/Json.lean, JsonText.lean, JsonLisp.lean),
+  the model the correspondence harness (harness/cmd/vh/c18*.go) runs against the implementation.
+-/
 namespace SlipVerif.Json
+open J
 
-theorem get_nil (j : J) : get [] j = some j := rfl
+/-! ## get, has, get-all and walk agree (every path: keys, indices, wildcards, descents) -/
+
+/-- `bag-get` returns the first node `:get-all` returns (none when there is none). -/
+theorem get_eq_head_getAll (p : Path) (j : J) : get p j = (getAll p j).head? := by
+  induction p generalizing j with
+  | nil => simp [get, getAll]
+  | cons s rest ih =>
+    simp only [get, getAll]
+    exact findSome_eq_head_flatMap _ _ _ (fun x => ih x)
+
+/-- `bag-has` answers true exactly when `:get-all` returns something. -/
+theorem has_iff_getAll (p : Path) (j : J) : has p j = !(getAll p j).isEmpty := by
+  induction p generalizing j with
+  | nil => simp [has, getAll]
+  | cons s rest ih =>
+    simp only [has, getAll]
+    exact any_eq_flatMap_ne_nil _ _ _ (fun x => ih x)
+
+/-- `bag-has` answers true exactly when `bag-get` finds a node. -/
+theorem has_iff_get (p : Path) (j : J) : has p j = (get p j).isSome := by
+  rw [has_iff_getAll, get_eq_head_getAll]
+  cases getAll p j <;> simp
+
+/-- `bag-walk` calls the function on exactly the nodes `:get-all` returns, in that order,
+    whatever the function accumulates. -/
+theorem walk_visits_exactly_getAll {σ : Type} (f : σ → J → σ) (p : Path) (s : σ) (j : J) :
+    walk f p s j = (getAll p j).foldl f s := by
+  induction p generalizing s j with
+  | nil => simp [walk, getAll]
+  | cons st rest ih =>
+    have ih' : (fun s c => walk f rest s c) = (fun s c => (getAll rest c).foldl f s) := by
+      funext s c; exact ih s c
+    cases st with
+    | key k =>
+      cases j with
+      | obj kvs =>
+        simp only [walk, getAll, stepAll]
+        cases lookup k kvs with
+        | none => simp
+        | some c => simp [ih]
+      | _ => simp [walk, getAll, stepAll]
+    | idx i =>
+      cases j with
+      | arr xs =>
+        simp only [walk, getAll, stepAll]
+        cases resolve i xs.length with
+        | none => simp
+        | some n =>
+          cases hx : xs[n]? with
+          | none => simp [hx]
+          | some c => simp [hx, ih]
+      | _ => simp [walk, getAll, stepAll]
+    | wild =>
+      cases j with
+      | arr xs => simp only [walk, getAll, stepAll, children, ih', List.foldl_flatMap]
+      | obj kvs => simp only [walk, getAll, stepAll, children, ih', List.foldl_flatMap, List.foldl_map]
+      | _ => simp [walk, getAll, stepAll, children]
+    | desc =>
+      simp only [walk, getAll, stepAll]
+      by_cases hc : j.isContainer = true
+      · simp only [hc, if_true, foldDesc_eq, ih', List.foldl_flatMap]
+      · simp [hc]
+
+/-! ## set: the value is there afterwards, everything apart stays (definite paths) -/
+
+theorem set_eq_setAt_of_definite (v : J) (p : Path) (j : J) (hd : definite p = true) :
+    set v p j = setAt v false p j := by
+  unfold set
+  simp [getLast?_ne_desc_of_definite p hd]
+
+/-- After a successful `bag-set` at a path of keys and indices, `bag-get` of that path returns
+    the value (also when the set had to add members / arrays on the way). -/
+theorem get_set_same (v : J) (p : Path) (j j' : J) (hd : definite p = true)
+    (h : set v p j = .ok j') : get p j' = some v := by
+  rw [set_eq_setAt_of_definite v p j hd] at h
+  exact setAt_get_same v p hd j j' h
+
+example : set (.int 9) [.key "a", .idx (-1)] (obj [("a", arr [.int 1, .int 2])])
+    = .ok (obj [("a", arr [.int 1, .int 9])]) := by rfl
+example : set (.int 9) [.key "x", .idx 1] (obj []) = .ok (obj [("x", arr [.null, .int 9])]) := by rfl
+
+/-- Frame: a successful set leaves every path alone that parts from the set path at two
+    different keys, or at a key against an index (`Apart`); what follows the parting step in the
+    other path is arbitrary (wildcards and descents included). -/
+theorem get_set_disjoint (v : J) (p q : Path) (j j' : J) (hd : definite p = true) (ha : Apart p q)
+    (h : set v p j = .ok j') : get q j' = get q j := by
+  rw [set_eq_setAt_of_definite v p j hd] at h
+  exact setAt_get_apart v ha hd j j' h
+
+example : Apart [.key "a", .idx 0] [.key "a", .key "b", .wild] := .cons .idxKey
+example : Apart [.key "a", .key "c"] [.key "a", .key "b", .desc, .idx 2] := .cons (.keys (by decide))
+
+/-- Frame inside an array that exists: a set below one element leaves everything below any
+    other element alone; the two indices may be written from either end (`resolve`). -/
+theorem get_set_disjoint_index (v : J) (pre p q : Path) (i k : Int) (xs : List J) (j j' : J)
+    (hd : definite pre = true) (hg : get pre j = some (arr xs))
+    (hne : resolve i xs.length ≠ resolve k xs.length)
+    (h : set v (pre ++ .idx i :: p) j = .ok j') :
+    get (pre ++ .idx k :: q) j' = get (pre ++ .idx k :: q) j := by
+  have hset : set v (pre ++ .idx i :: p) j = setAt v false (pre ++ .idx i :: p) j ∨
+      set v (pre ++ .idx i :: p) j = .error .badLast := by
+    unfold set; split <;> simp
+  rcases hset with hs | hs
+  · rw [hs] at h
+    exact setAt_get_apart_index v pre hd j j' xs i k p q hg hne h
+  · rw [hs] at h; cases h
+
+example : resolve (-1) 3 ≠ resolve 0 3 := by decide
+example : resolve (-1) 3 = resolve 2 3 := by decide
+
+/-! ## remove -/
+
+/-- After `bag-remove` of a member, `bag-has` (and so `bag-get`) of that path finds nothing. -/
+theorem remove_then_not_has (pre : Path) (k : String) (j j' : J) (hd : definite pre = true)
+    (h : remove (pre ++ [.key k]) j = .ok j') : has (pre ++ [.key k]) j' = false := by
+  rw [remove_definite pre (.key k) j hd rfl] at h
+  cases h
+  rw [has_iff_get, get_modifyAt _ pre hd]
+  cases get pre j with
+  | none => rfl
+  | some c => simp [get_key_removeStep]
+
+example : remove [.key "a", .key "b"] (obj [("a", obj [("b", .int 1), ("c", .int 2)])])
+    = .ok (obj [("a", obj [("c", .int 2)])]) := by rfl
+
+/-- `bag-remove` of an array element deletes that element and closes the gap. -/
+theorem remove_index (pre : Path) (i : Int) (n : Nat) (xs : List J) (j j' : J) (hd : definite pre = true)
+    (hg : get pre j = some (arr xs)) (hr : resolve i xs.length = some n)
+    (h : remove (pre ++ [.idx i]) j = .ok j') : get pre j' = some (arr (xs.eraseIdx n)) := by
+  rw [remove_definite pre (.idx i) j hd rfl] at h
+  cases h
+  have := get_modifyAt (removeStep (.idx i)) pre hd [] j
+  simp only [List.append_nil] at this
+  rw [this, hg]
+  simp [removeStep, hr, get]
+
+/-- Removing what is not there changes nothing. -/
+theorem remove_absent (pre : Path) (s : Step) (j j' : J) (hd : definite pre = true) (hs : s.isDef = true)
+    (hn : get pre j = none) (h : remove (pre ++ [s]) j = .ok j') : ∀ q, get (pre ++ q) j' = none := by
+  rw [remove_definite pre s j hd hs] at h
+  cases h
+  intro q
+  rw [get_modifyAt _ pre hd, hn]
+  rfl
+
+/-- Frame for remove: paths that part from the removed path at different keys, or at a key
+    against an index, keep what they select. -/
+theorem get_remove_disjoint (pre : Path) (last : Step) (q : Path) (j j' : J) (hd : definite pre = true)
+    (hl : last.isDef = true) (ha : Apart (pre ++ [last]) q)
+    (h : remove (pre ++ [last]) j = .ok j') : get q j' = get q j := by
+  rw [remove_definite pre last j hd hl] at h
+  cases h
+  exact modifyAt_removeStep_apart last pre hd hl q j ha
 
 end SlipVerif.Json
